@@ -34,7 +34,9 @@ def run(c):
     depth = os.environ.get("VERIF_C33_DEPTH") or c.pick("3", "4")
     cfg = "MC_RootStore_d" + depth
     edges = c.path("roots_edges.ndjson")
-    res = c.tlc_must_pass("msc", "MC_RootStore", cfg=cfg, edges_out=edges, workers=6, timeout=c.pick(600, 3000))
+    # one worker: the step counter is hidden from the VIEW, so only a strict breadth-first search reaches every state
+    # first at its smallest depth and expands exactly the states within the bound (deterministic edge set)
+    res = c.tlc_must_pass("msc", "MC_RootStore", cfg=cfg, edges_out=edges, workers=1, timeout=c.pick(600, 3000))
     c.log("TLC %s: %d distinct states, %d transitions, %d edges" % (cfg, res.distinct, res.generated, res.edges))
     c.guard("tlc_edges", res.edges)
     rep = roots_replay(c, edges, ["-variants", "rotate", "-par", 6], "root-registry")
